@@ -4,3 +4,8 @@ package stats
 func VerifRoutines() (uint64, uint64, uint64) {
 	return globalStats.PreprocessorRoutines.get(), globalStats.ArchiverRoutines.get(), globalStats.PostprocessorRoutines.get()
 }
+
+// VerifTotals returns the running totals of URLs crawled and seeds finished.
+func VerifTotals() (urls, seeds uint64) {
+	return globalStats.URLsCrawled.getTotal(), globalStats.SeedsFinished.getTotal()
+}
